@@ -1295,6 +1295,22 @@ void apply_mutation(const Op& op)
             d.replace(lines[lo].first, slo.size(), shi);
         }
     }
+    else if(n == "casetoggle")
+    {
+        // flip the case of one letter inside a quoted value (type names are looked up case-insensitively)
+        std::vector<size_t> idx;
+        bool inq = false;
+        for(size_t i = 0; i < d.size(); i++)
+        {
+            if(d[i] == '"') inq = !inq;
+            if(inq && std::isalpha((unsigned char)d[i])) idx.push_back(i);
+        }
+        if(!idx.empty())
+        {
+            size_t i = idx[(size_t)(op.uarg(0) % idx.size())];
+            d[i] = (char)(std::islower((unsigned char)d[i]) ? std::toupper((unsigned char)d[i]) : std::tolower((unsigned char)d[i]));
+        }
+    }
     else if(n == "digit" || n == "letter" || n == "valbyte")
     {
         // class-preserving corruption of the k-th byte of that class
@@ -2145,7 +2161,7 @@ Plan gen_c09(u64 seed, const std::string& tier)
             {
             case 8:
             case 9: mut("mut.attrcopy", {(long long)fl.below(100000), (long long)fl.below(100000), (long long)fl.below(100000)}); break;
-            case 10: mut("mut.textdel", {(long long)fl.below(100000)}); break;
+            case 10: if(fl.chance(1, 2)) mut("mut.casetoggle", {(long long)fl.below(100000)}); else mut("mut.textdel", {(long long)fl.below(100000)}); break;
             case 11: mut("mut.textset", {(long long)fl.below(100000), (long long)fl.below(64)}); break;
             case 0:
             case 1:
